@@ -1,6 +1,5 @@
-"""C07 — compaction and flushing are invisible to readers (function-level part: compaction input
-selection; the whole-database part is added by the dbhist suite)."""
-from gen import lib, vfn
+"""C07 — compaction and flushing are invisible to readers."""
+from gen import lib, vfn, dbh
 
 PROP_FILE = "props/C07.v"
 RULE = ("vfn: random well-formed versions (levels >= 1 sorted and disjoint, consecutive files may "
@@ -25,21 +24,33 @@ def corpus():
     return res
 
 
+def gen_db(tier, rng):
+    n = 50 if tier == "quick" else 2500
+    w = dict(put=35, batch=8, get=3, snap=6, iter=1, compact=8, reopen=1, wait=6)
+    w["del"] = 16
+    return [dbh.gen_history(rng, i, rng.choice([60, 120, 250]), w) for i in range(n)]
+
+
 def suites(tier, seed, rng):
-    return [vfn.VfnSuite("vfn", corpus() + vfn.gen(tier, rng, {"range", "oci", "fin", "plmo"}), lambda i, s, c: True)]
+    return [vfn.VfnSuite("vfn", corpus() + vfn.gen(tier, rng, {"range", "oci", "fin", "plmo"}), lambda i, s, c: True),
+            dbh.DbSuite(dbh.corpus("C07") + gen_db(tier, rng))]
 
 
 def replay_suites(rp):
+    if rp.get("suite") == "dbhist":
+        return [dbh.DbSuite([rp["case"]])]
     return [vfn.VfnSuite("vfn", [rp["case"]], lambda i, s, c: True)]
 
 
 def still_fails(suite, case, workdir):
+    if suite == "dbhist":
+        return dbh.still_fails(case, workdir)
     return vfn.still_fails(case, workdir)
 
 
 def nontrivial(suite, case):
-    return case.count(" F") >= 2
+    return case.count(" F") >= 2 or " P" in case
 
 
 def classify(suite, case):
-    return "vfn:" + case.split(" ")[2]
+    return "dbhist" if suite == "dbhist" else "vfn:" + case.split(" ")[2]
